@@ -91,6 +91,15 @@ def extra(report, env):
             want = exp if exp is not None else base
             if (r['result'] != want or (want is not None and type(r['result']) is not type(want))) and len(fails) < 5:
                 fails.append({'formula': text, 'detail': 'listener %s set %r: value %r, expected %r' % (ev, seq, r, want)})
+    # listeners that evaluate on the same parser while a reference is being resolved (formula cells, validation rules): the value of a
+    # reference is what ITS setter was handed, whenever that happened relative to the nested evaluations and whatever they were handed
+    for order in ('set-then-nest', 'nest-then-set', 'set-nest-none'):
+        for second_listener in (False, True):
+            for text, want in (('C1', 7), ('C1+A1', 14), ('B1+C1', 28), ('SUM(B1,C1,A1)', 35), ('E1', None), ('E1+C1', 7), ('C1+E1', 7), ('IF(C1=7,B1,0)', 21)):
+                bad = reentrant_case(order, second_listener, text, want)
+                cases += 1
+                if bad and len(fails) < 5:
+                    fails.append({'formula': text, 'reentrant': [order, second_listener, want], 'detail': bad})
     # reference walk: seeded formulas in which the same variable / cell / range / function occurs several times; every occurrence
     # raises its own event (post-order, left to right) and takes the value its own setter was given
     for _ in range(300 if env['tier'] == 'quick' else 5000):
@@ -100,9 +109,60 @@ def extra(report, env):
         cases += 1
         if bad and len(fails) < 5:
             fails.append({'formula': text, 'walk': tree, 'detail': bad})
-    bounded(report, 'C10.events', '7 columns x 5 rows x 4 $-patterns, 18 ranges (all corner orders), 4 ordering formulas, 9 setter sequences x 4 events, seeded formulas with '
+        # the same formula with listeners that stay silent on some events
+        silent = [k for k in range(1, 12) if rng.random() < 0.4]
+        bad = walk_case(tree, text, silent)
+        cases += 1
+        if bad and len(fails) < 5:
+            fails.append({'formula': text, 'walk': tree, 'silent': silent, 'detail': 'listeners silent on events %r: %s' % (silent, bad)})
+    bounded(report, 'C10.events', 'listeners re-entering the same parser while a cell is being resolved (3 orders of hand-over x with/without a second listener x 8 formulas), 7 columns x 5 rows x 4 $-patterns, 18 ranges (all corner orders), 4 ordering formulas, 9 setter sequences x 4 events, seeded formulas with '
             'repeated references (<= 6 atoms from 2 variables, 2 cells, 1 range, SUM / MAX calls) against a reference walk: one event per occurrence, '
-            'each occurrence valued by its own setter', cases, fails)
+            'each occurrence valued by its own setter, and again with listeners silent on a random 40% of the events (blank / the variable own value)', cases, fails)
+
+
+def reentrant_case(order, second_listener, text, want):
+    """ sheet: A1 = 7, B1 = formula A1*3, C1 = 7 handed over before / after a nested evaluation (or followed by None), E1 = nobody answers.
+        A second listener (a validation rule) re-enters the parser on every cell but A1 and hands nothing over. """
+    from pyvc import e2e
+    p = e2e.new_parser()
+
+    def sheet(cell, setter):
+        lab = cell.label
+        if lab == 'A1':
+            setter(7)
+        elif lab == 'B1':
+            setter(p.parse('A1*3')['result'])
+        elif lab == 'C1':
+            if order == 'set-then-nest':
+                setter(7)
+                p.parse('A1+100')
+            elif order == 'nest-then-set':
+                p.parse('A1+100')
+                setter(7)
+            else:
+                setter(7)
+                p.parse('A1+100')
+                setter(None)
+        elif lab == 'E1':
+            p.parse('A1+100')            # looks something up, answers nothing: the cell is blank
+
+    def validation(cell, setter):
+        if cell.label != 'A1':
+            p.parse('A1*1000')
+    p.on('callCellValue', sheet)
+    if second_listener:
+        p.on('callCellValue', validation)
+    r = p.parse(text)
+    if r != {'result': want, 'error': None}:
+        return 'C1 is handed 7 (%s)%s: expected %r got %r' % (order, ', a second listener re-enters the parser on every cell' if second_listener else '', want, r)
+    return None
+
+
+class SkipCase(Exception):
+    pass
+
+
+SILENT_RANGE = object()      # a range nobody answered: blank (contributes nothing to SUM / MAX)
 
 
 def gen_refs(rng, n):
@@ -126,15 +186,21 @@ def render_refs(t):
     return '(%s+%s)' % (render_refs(t[1]), render_refs(t[2]))
 
 
-def walk_case(tree, text):
-    """ evaluate text with listeners that hand the n-th event the value n (ranges: [n, n]); compare events and value with the walk """
+def walk_case(tree, text, silent=()):
+    """ evaluate text with listeners that hand the n-th event the value n (ranges: [n, n]); compare events and value with the walk.
+        `silent`: event numbers at which the listener does not call the setter - that reference is then blank (cell, range: 0 in a sum)
+        or keeps the variable's own value (100), whatever an earlier reference was given """
     from pyvc import e2e
     p = e2e.new_parser()
+    p.set_variable('x', 100)
+    p.set_variable('y', 100)
     log = []
 
     def give(kind, key, setter):
         log.append((kind, key))
         n = len(log)
+        if n in silent:
+            return
         setter([n, n] if kind == 'range' else n)
     p.on('callVariable', lambda name, s: give('var', name, s))
     p.on('callCellValue', lambda cell, s: give('cell', cell.label, s))
@@ -150,21 +216,37 @@ def walk_case(tree, text):
             return t[1]
         if t[0] in ('var', 'cell'):
             exp.append((t[0], t[1]))
+            if len(exp) in silent:
+                return 100 if t[0] == 'var' else None       # the variable's own value / a blank cell
             return len(exp)
         if t[0] == 'range':
             exp.append(('range', t[1] + ':' + t[2]))
+            if len(exp) in silent:
+                return SILENT_RANGE
             return [len(exp), len(exp)]
         if t[0] == 'fn':
             a, b = ev(t[2]), ev(t[3])
             exp.append(('fn', t[1]))
-            return (sum if t[1] == 'SUM' else max)(flat([a, b]))
+            items = [v for v in flat([a, b]) if v is not SILENT_RANGE and v is not None]      # blanks contribute nothing to SUM / MAX
+            if not items:
+                raise SkipCase()            # MAX / SUM of nothing at all: outside what this walk pins down
+            return (sum if t[1] == 'SUM' else max)(items)
         a, b = ev(t[1]), ev(t[2])
+        if a is SILENT_RANGE or b is SILENT_RANGE:
+            raise SkipCase()                # a blank range as an operand of +: not pinned down by the statement
+        a = 0 if a is None else a           # a blank operand of + is 0
+        b = 0 if b is None else b
         if isinstance(a, list) or isinstance(b, list):
             if isinstance(a, list) and isinstance(b, list):
                 return [x + y for x, y in zip(a, b)]
             return [x + b for x in a] if isinstance(a, list) else [a + y for y in b]
         return a + b
-    want = ev(tree)
+    try:
+        want = ev(tree)
+    except SkipCase:
+        return None
+    if want is SILENT_RANGE:
+        return None
     r = p.parse(text)
     if log != exp:
         return 'events %r, expected one per occurrence in evaluation order: %r' % (log, exp)
@@ -174,8 +256,12 @@ def walk_case(tree, text):
 
 
 def replay(rp):
+    if rp.get('reentrant'):
+        bad = reentrant_case(rp['reentrant'][0], rp['reentrant'][1], rp['formula'], rp['reentrant'][2])
+        print('parse(%r): %s' % (rp['formula'], bad or 'as stated'))
+        return 1 if bad else 0
     if rp.get('walk'):
-        bad = walk_case(rp['walk'], rp['formula'])
+        bad = walk_case(rp['walk'], rp['formula'], rp.get('silent') or ())
         print('parse(%r): %s' % (rp['formula'], bad or 'events and value as stated'))
         return 1 if bad else 0
     from pyvc import e2e
